@@ -70,6 +70,9 @@ func Deb822Field(r *core.Rand, name string) model.Field {
 	} else {
 		f.Lead = r.Pick([]string{"", " ", ""})
 	}
+	if f.First == "" && r.Chance(1, 3) {
+		return f // a field with an entirely empty value ("Recommends:")
+	}
 	if r.Chance(2, 5) || f.First == "" {
 		for k := r.Range(1, 6); k > 0; k-- {
 			c := model.ContLine{Marker: " ", Comments: comments(r, 10)}
